@@ -27,7 +27,8 @@ CLAIMS = {
         text="Static proof of a sufficient condition for layout independence on the resolved MIR of every body: no layout-observing "
              "ndarray/std API outside the one audited helper (R1, all call sites), axis parameters passed through unchanged (R8), "
              "zip operands are undisturbed logical producers (R9), each extension trait implemented once generically in the storage "
-             "type (IMPL). Decides the structural condition, not the numerical roundoff clause.",
+             "type (IMPL); caller callbacks are driven in logical order and no closure driven by a layout-ordered ndarray traversal appends to "
+             "a captured collection (R23). Decides the structural condition, not the numerical roundoff clause.",
         design_ref="DESIGN.md §4 C20",
         note=NOTE_BASE,
         technique="static analysis: who-may-call + dataflow rules over type-checked MIR (custom rustc_private driver)",
@@ -37,8 +38,10 @@ CLAIMS = {
         text="Static must-pass-through analysis of the CFG (release and dev MIR, constant-false debug_assert branches pruned): every "
              "entry→return path of partition_mut, get_from_sorted_mut, get_many_from_sorted_mut, Edges::index, Bins::index and Grid::index "
              "passes an operation that diverges unless position < length; a violating path is reported block by block. Decides the "
-             "rejection direction for every input, pivot sequence and build profile; the converse (in-range calls never panic) is decided "
-             "only for the leaf functions covered by the zone analysis (see C15).",
+             "rejection direction for every input, pivot sequence and build profile; the converse (in-range calls never panic) is decided for "
+             "the leaf functions by the zone analysis (R18) and for both recursive selection routines by R18s: under the in-range "
+             "precondition every panic edge met by the abstract executions of R24/R25 (bounds checks, slicing, split_at_mut, overflow and "
+             "debug assertions, empty gen_range, callee preconditions) is refuted by the reached state.",
         design_ref="DESIGN.md §4 C16",
         note=NOTE_BASE,
         technique="static analysis: must-pass-through (path) rule over release/dev MIR CFGs with delegation summaries",
@@ -60,7 +63,8 @@ CLAIMS = {
              "NotNone, audited inventory of every unsafe block/fn tied to its justifying guard (R3), NotNone only built from values known "
              "Some (R11), no randomness / no layout API in maybe_nan (R14, R1), and the compaction's postcondition proved by candidate "
              "segment invariants (R21): every return is the prefix view[..x] with no missing value before x and only missing values from x "
-             "on – with the swap-only effect discipline this is 'exactly the non-missing elements, length = their count'.",
+             "on – with the swap-only effect discipline this is 'exactly the non-missing elements, length = their count'; 'missing' is the "
+             "element type's own test in all 14 impls (R29: float is_nan(self), Option is_none(self)).",
         design_ref="DESIGN.md §4 C04",
         note=NOTE_BASE,
         technique="static analysis: provenance + dominance rules over MIR, unsafe inventory from HIR",
@@ -122,7 +126,8 @@ CLAIMS = {
     "C05": dict(
         category="other",
         text="Static check of the structural clauses of min/max/argmin/argmax: emptiness decided first and mapped to EmptyInput; every "
-             "element comparison is partial_cmp→UndefinedOrder via `?`; the scan covers the whole receiver (first element compared too); "
+             "element comparison is partial_cmp→UndefinedOrder via `?`; the scan is a fresh complete traversal of the receiver (its iterator is "
+             "never advanced before the scan, so a lone NaN is compared too); "
              "replacement predicate new<best for min forms / new>best for max forms, arg and value forms agreeing; arg forms return the "
              "indexed_iter index updated together with the value. Does not decide that the scan result is extremal for all value patterns.",
         design_ref="DESIGN.md §4 C05",
@@ -134,7 +139,9 @@ CLAIMS = {
         text="Static check of the filter structure of all NaN-skipping operations: traversal covers the receiver, user closure invoked "
              "exactly once on the Some branch of try_as_not_nan(item) with that value/index, accumulator passed through otherwise; lane "
              "forms are strip∘plain with the caller's axis/q/strategy; comparator direction and EmptyInput rule of the skip-NaN extrema; "
-             "stripped lanes sound for every stride (R2/R3). Does not decide value equality with the filtered plain operation.",
+             "stripped lanes sound for every stride (R2/R3); NotNone<T> is a transparent wrapper – each of its 40 trait methods is T's own method "
+             "of the same name, none left to a trait default (R28); 'missing' is the type's own is_nan/is_none (R29). Does not decide value "
+             "equality with the filtered plain operation beyond these.",
         design_ref="DESIGN.md §4 C14",
         note=NOTE_BASE,
         technique="static analysis: branch-discipline (dominance) rules over MIR closures",
@@ -145,7 +152,8 @@ CLAIMS = {
              "new/add_observation (field ownership over all MIR bodies), exactly one `+= 1` on the found branch with the index returned by "
              "self.grid.index_of(observation), nothing written or called on the reject path, counts = zeros(grid.shape()) of the stored "
              "grid, matrix form inserts each row of axis 0 once and ignores rejects, coordinate j paired with projection j after an arity "
-             "assert. Order independence follows from commuting increments.",
+             "assert; the lookup itself is the left-closed/right-open decision tree for every edge-set size incl. 0 and 1 (R20), so a miss is a "
+             "quiet None. Order independence follows from commuting increments.",
         design_ref="DESIGN.md §4 C11",
         note=NOTE_BASE,
         technique="static analysis: field-ownership, exactly-once dataflow and dominance rules over MIR",
@@ -166,7 +174,8 @@ CLAIMS = {
              "applies the documented guards/delegations, and accumulates exactly the definitional kernel: the closure's arithmetic is "
              "extracted from MIR as a symbolic term and compared by a CAS with Σ(a−b)², Σ|a−b|, max|a−b| (running max from 0), +1 on a==b; "
              "symmetry and zero-on-equal are proved on the extracted terms; derived measures are the documented functions of the "
-             "primitives. Exact for integers barring overflow; float roundoff is not decided.",
+             "primitives; in PSNR the peak enters only as maxv.to_f64() (no squaring in the element type). Exact for integers barring overflow; "
+             "float roundoff is not decided.",
         design_ref="DESIGN.md §4 C09",
         note=NOTE_BASE + " sympy is trusted for polynomial/elementary identities.",
         technique="static analysis: symbolic kernel-term extraction from MIR + CAS identity check; pairing/guard rules",
@@ -174,7 +183,7 @@ CLAIMS = {
     "C10": dict(
         category="other",
         text="Static check of entropy/cross-entropy/KL: explicit `== 0 ⇒ 0` branch on the multiplicand dominating every ln (R10), kernel "
-             "terms extracted from MIR equal x·ln x, p·ln q, p·ln(q/p) (CAS), result is the negated plain sum, operands paired by logical "
+             "terms extracted from MIR equal x·ln x, p·ln q, p·ln(q/p) (CAS), every success value is the negated plain sum (no clamping), operands paired by logical "
              "index in the documented order, guards per the decision table; identities KL(p,p)=0 and H(p,q)=H(p)+KL(p,q) proved termwise "
              "on the extracted terms. Inequalities (KL ≥ 0, H ≤ ln n) and roundoff are not decided.",
         design_ref="DESIGN.md §4 C10",
@@ -208,8 +217,9 @@ CLAIMS = {
         text="Static check of the strategy-built bins: n_bins() and build() of the shared EquiSpaced builder use the same edge formula "
              "operation for operation (extracted from MIR as functions of their loop counters), build iterates 0..=n_bins(), edge(0)=min, "
              "equal widths (CAS); every builder is constructed under the guard width>0 ∧ min<max; strategies pass a.min()/a.max() in order "
-             "and delegate; error rows. Necessary conditions of the property; covering of the maximum and termination for floats are not "
-             "fully decided.",
+             "and delegate; error rows. With the loop's exit test `edge(n) <= max` and the +1 counter this gives, in exact arithmetic, "
+             "last edge > max and ≤ max + width. Necessary conditions of the property; float rounding of the edges and termination for "
+             "widths below one ulp are not decided.",
         design_ref="DESIGN.md §4 C12",
         note=NOTE_BASE,
         technique="static analysis: sibling-agreement on extracted operation DAGs + constructor-dominance rules",
